@@ -1,7 +1,7 @@
 import SamVerif.Model.CompileGate
 import SamVerif.Lemmas.MatchLowerBind
 import SamVerif.Model.OptKernel
-import SamVerif.Props.C04
+import SamVerif.Lemmas.C03Str
 import SamVerif.Props.C07
 /-!
 # C03 — programs accepted by the checker never go wrong: property theorems
@@ -15,8 +15,9 @@ proved, for all inputs, are the gates the property rests on:
                                (Model/CompileGate.lean, lib.rs:35-69).
 2. `fold_total…`             — the compile-time arithmetic of the optimizer (C02's kernels) never
                                aborts: false on the code (witnesses), true under explicit side conditions.
-3. `ts_literal_closed…`      — a string constant pasted between back quotes is one substitution-free
-                               template literal: false (witnesses), true without `` ` ``, `${`, `\`, CR.
+3. `ts_literal_closed`       — every lexer-accepted string constant is, in the emitted TypeScript, one
+                               well-formed substitution-free template literal (full strength since fix
+                               9fd2988; built on C04's lemmas through Lemmas/C03Str.lean).
 4. `exhaustive_no_fallback`  — composition of C07 with the model of `lower_match`
                                (Model/MatchLower.lean): a `match` the checker accepts never reaches the
                                fallback panic and its pattern tests never fault, for all types, arm lists
@@ -121,27 +122,29 @@ end fold
 section tslit
 open SamVerif.Backends
 
-/- FULL STATEMENT (false on the unchanged code): every string constant the lexer accepts is, in the
-   emitted TypeScript, one well-formed substitution-free template literal:
-   ∀ raw, lexAccepts raw = true → (tsDecode (content raw)).isSome -/
+/- Historical note: before fix 0e855e5 a back quote / `${` (finding C04-F3) and before fix 9fd2988
+`\0` followed by a digit (octal escape, finding C03-F4, witness `"\01"`) made the emitted template
+literal ill-formed; this file then carried `ts_literal_closed_counterexample` and a `_partial`
+theorem for backslash-free content.  Since 9fd2988 the printer (`template_literal_text`, lir.rs)
+keeps the eight escapes, writes a raw CR as `\r` and `\0` before a digit as `\x00`. -/
 
-/-- Witness `"\01"`: `\0` followed by a digit is an octal escape, which is a SyntaxError inside a
-template literal - the emitted `.ts` does not parse (finding C03-F4).  (Back quote and `${`, the
-former witnesses, are escaped since fix 0e855e5.) -/
-theorem ts_literal_closed_counterexample :
-    ¬ (∀ raw : Text, lexAccepts raw = true → (tsDecode (content raw)).isSome = true) := by
-  intro h
-  have := h [92, 48, 49] (by decide)
-  simp [tsDecode, tsEscape, tsCook, content, unescapeQuotes, isDigit] at this
+/-- **ts_literal_closed** (full strength): for EVERY string literal the lexer accepts, the text the
+compiler prints between back quotes in the emitted TypeScript is exactly one well-formed,
+substitution-free template literal (`tsDecode … = some js`: no back quote closes it, no `${` opens
+a substitution, no escape is a SyntaxError), and `js` is the UTF-16 form of the characters the
+literal denotes.  Built on C04's lemmas through `Lemmas/C03Str.lean`. -/
+theorem ts_literal_closed (raw : Text) (h : lexAccepts raw = true) :
+    tsDecode (content raw) = some ((wasmUnescape (content raw)).flatMap utf16) :=
+  C03Str.wellEsc_closed _ (C03Str.accepted_content_wellEsc raw h)
 
-/-- **ts_literal_closed_partial**: any content (ASCII or not, back quotes, `$`, `{` included) without
-backslash and carriage return is exactly one substitution-free template literal. -/
-theorem ts_literal_closed_partial (s : Text) (h : ∀ c ∈ s, c ≠ 92 ∧ c ≠ 13) :
-    (tsDecode s).isSome = true := by
-  rw [tsDecode_clean s h]; rfl
+theorem ts_literal_closed_isSome (raw : Text) (h : lexAccepts raw = true) :
+    (tsDecode (content raw)).isSome = true := by
+  rw [ts_literal_closed raw h]; rfl
 
-example : (tsDecode [233, 96, 36, 123, 49, 125]).isSome = true :=
-  ts_literal_closed_partial _ (by decide)
+-- the former witnesses are accepted literals and now closed: "\01", "a`b", "${1}", raw CR
+example : lexAccepts [92, 48, 49] = true ∧ lexAccepts [97, 96, 98] = true ∧
+    lexAccepts [36, 123, 49, 125] = true ∧ lexAccepts [13] = true := by decide
+example : (tsDecode (content [92, 48, 49])).isSome = true := ts_literal_closed_isSome _ (by decide)
 end tslit
 
 /-! ## 4. Accepted patterns never go wrong: `match`, `if let`, `let` -/
